@@ -29,7 +29,7 @@ ASSUMPTIONS = ['batch (non-interactive) mode only, as the property quantifies',
 DEFAULTS = {'boxed': False, 'expand': False, 'format': 'text', 'narrow': True, 'nullvalue': '', 'numberify': False, 'pager': True, 'spaced': False, 'unicode': False}
 TRUE_WORDS = ['1', 'true', 't', 'yes', 'y', 'on', 'TRUE', 'On', ' yes']
 FALSE_WORDS = ['0', 'false', 'f', 'no', 'n', 'off', 'FALSE', 'No']
-BAD_BOOL = ['2', 'maybe', 'tru', '', 'yess', '-1', 'null']
+BAD_BOOL = ['2', 'maybe', 'tru', '', 'yess', '-1', 'null', 'ye', 'es', 'als', 'o', 'rue', 'fals', 'of', 'e', 'tt', '10', '01']
 NOT_SETTINGS = ['todict', 'getstr', 'setstr', '_parse_bool', '_parse_format', '__class__', '__dict__', 'nosuch', 'Boxed', 'format ']
 
 STATEMENTS = [
